@@ -186,8 +186,10 @@ def write_evidence(pid, tier, seed, level, coverage, assumptions, wall_s, violat
          "assumptions": assumptions, "wall_s": round(wall_s, 2), "violations": int(violations)}
     if extra:
         d.update(extra)
-    os.makedirs(os.path.join(ROOT, "evidence"), exist_ok=True)
-    path = os.path.join(ROOT, "evidence", pid + ".json")
+    # evidence/ only ever describes runs against /repo itself; runs against a scratch tree (VERIF_REPO) are kept apart
+    edir = os.path.join(ROOT, "evidence") if os.path.realpath(REPO) == "/repo" else os.path.join(ROOT, "out", "evidence-scratch")
+    os.makedirs(edir, exist_ok=True)
+    path = os.path.join(edir, pid + ".json")
     with open(path + ".tmp", "w") as f:
         json.dump(d, f, indent=1, sort_keys=True, default=str)
     os.replace(path + ".tmp", path)
